@@ -135,12 +135,12 @@ def gen_rules(rng):
                     cond = "not $%s" % strings[0][0]
             elif strings:
                 sn = strings[0][0]
-                cond = rng.choice(["any of them", "any of them", "all of them", "$%s" % sn, "#%s > 1" % sn, "$%s at 0" % sn,
+                cond = rng.choice(["any of them", "any of them", "any of them", "all of them", "$%s" % sn, "#%s > 1" % sn, "$%s at 0" % sn,
                                    "any of them or filesize == 0", "not any of them", "#%s > 2 or filesize > 1000" % sn])
                 if names_here and rng.chance(1, 4):
                     cond = "(%s) and %s" % (cond, rng.choice(names_here))
             else:
-                cond = rng.choice(["true", "false", "filesize > 10", "filesize == 0", "filesize < 100"])
+                cond = rng.choice(["true", "true", "false", "filesize > 10", "filesize == 0", "filesize < 100"])
                 if names_here and rng.chance(1, 3):
                     cond = rng.choice(["%s", "not %s"]) % rng.choice(names_here)
             # every string must be used
@@ -183,10 +183,10 @@ def gen_content(rng):
         return {"fill": rng.choice([70000, 140000, 300000]), "byte": rng.choice([0x20, 0x00, 0x71]),
                 "tail": hx(rng.choice(WORDS) + b" " + rng.choice(WORDS))}
     parts = []
-    for _ in range(rng.range(0, 7)):
+    for _ in range(rng.range(1, 9)):
         parts.append(rng.bytes(rng.range(0, 12), FILLER))
         w = rng.choice(WORDS)
-        form = rng.below(8)
+        form = rng.below(12)
         if form == 0:
             key = rng.choice([1, 2, 3, 0x41, 0xff, 0x20])
             w = bytes(c ^ key for c in w)
@@ -292,12 +292,20 @@ def gen_flags(rng, decls):
         f[k] = rng.chance(*p) if style != 1 else True
     f["c"] = rng.chance(1, 6)
     f["n"] = rng.chance(1, 4)
-    f["l"] = rng.choice([None, None, None, 1, 2, 3, 1000]) if not rng.chance(1, 40) else 0
-    names = [d["name"] for d in decls] or ["nothing"]
-    f["i"] = rng.choice([None, None, None, None, rng.choice(names), "nosuchrule"])
-    f["t"] = rng.choice([None, None, None, rng.choice(TAGS), rng.choice(TAGS), "t"])
+    f["l"] = rng.choice([None, None, None, None, None, None, 1, 2, 3, 1000]) if not rng.chance(1, 40) else 0
+    names = [d["name"] for d in decls if not d["private"]] or ["nothing"]
+    used_tags = sorted(set(t for d in decls for t in d["tags"])) or ["t1"]
+    filt = rng.below(12)
+    f["i"] = rng.choice([rng.choice(names)] * 5 + ["nosuchrule"]) if filt in (0, 2) else None
+    f["t"] = rng.choice([rng.choice(used_tags)] * 6 + [rng.choice(TAGS), "t"]) if filt in (1, 2, 3) else None
     f["mml"] = rng.choice([None, None, None, 0, 1, 2, 5, 511, 512, 513, 600, 100000])
     f["smax"] = rng.choice([None, None, None, 1, 2, 3, 1000])
+    if f["s"] or f["L"] or f["X"]:
+        # keep the printed volume (and the Coq term) small: few matches per string, or short data
+        if f["mml"] is None or f["mml"] > 64:
+            f["smax"] = rng.choice([1, 2, 3, 5])
+        elif f["smax"] is None or f["smax"] > 20:
+            f["smax"] = rng.choice([1, 2, 3, 5, 20])
     f["w"] = rng.choice(["print", "print", "print", "ignore", "fail"])
     f["timeout"] = rng.choice([None, None, None, 1000])
     f["chunk"] = rng.choice([None, None, None, 4096])
@@ -450,9 +458,18 @@ def g_match(m):
         m["base"], m["offset"], m["length"], m["key"], gbytes(bytes.fromhex(m["data"])))
 
 
-def g_strings(strings):
-    return glist(["(%s, %s)" % (gbytes(bytes.fromhex(s["name"])), glist([g_match(m) for m in s["matches"]]))
-                  for s in strings])
+def g_strings(strings, tbl=None, keep=True):
+    """match lists of one rule; `tbl` interns equal lists (events and results carry the same data);
+    keep=False: the invocation prints no string matches, neither model nor spec looks at them"""
+    if not keep:
+        return "[]"
+    txt = glist(["(%s, %s)" % (gbytes(bytes.fromhex(s["name"])), glist([g_match(m) for m in s["matches"]]))
+                 for s in strings])
+    if tbl is None or len(txt) < 40:
+        return txt
+    if txt not in tbl:
+        tbl[txt] = "ms%d" % len(tbl)
+    return tbl[txt]
 
 
 class C18(Prop):
@@ -534,7 +551,7 @@ class C18(Prop):
         return cases[:n]
 
     def budget(self, tier):
-        return 64 if tier == "quick" else 1200
+        return 240 if tier == "quick" else 2400
 
     def extra_search(self, ctx, rng, around):
         return self.generate(ctx, rng, 48)
@@ -705,6 +722,18 @@ class C18(Prop):
                 ctx.count("no-mmap")
             if inv["recursive"]:
                 ctx.count("recursive")
+            try:
+                nl = len(bytes.fromhex(r["cli"]["stdout"]).split(b"\n")) - 1
+                ctx.count("stdout-lines=" + ("0" if nl == 0 else "1-9" if nl < 10 else "10-99" if nl < 100 else ">=100"))
+                ctx.count("candidate-files=" + ("0-1" if len(lib["files"]) < 2 else "2-9" if len(lib["files"]) < 10 else ">=10"))
+                if any(e["ev"] == "limit" for fe in lib["files"] for e in fe["events"]):
+                    ctx.count("string-limit-warning")
+                if any(fe["error"] for fe in lib["files"]):
+                    ctx.count("unreadable-entry")
+                if r["cli"]["rc"] != 0:
+                    ctx.count("exit=%d" % r["cli"]["rc"])
+            except Exception:
+                ctx.count("cli-failed")
         return outs
 
     def cleanup(self, ctx):
@@ -753,7 +782,7 @@ class C18(Prop):
             r = e["rule"]
             info = g_info(bytes.fromhex(r["ns"]), bytes.fromhex(r["name"]), [bytes.fromhex(t) for t in r["tags"]],
                           [(bytes.fromhex(m["name"]), m["t"], m["v"]) for m in r["metas"]])
-            return "EvRule %s %s %s" % (gbool(r["matched"]), info, g_strings(r["strings"]))
+            return "EvRule %s %s %s" % (gbool(r["matched"]), info, g_strings(r["strings"], self._ms, self._keep))
         if e["ev"] == "limit":
             return "EvLimit %s %s %s" % (gbytes(bytes.fromhex(e["ns"])), gbytes(bytes.fromhex(e["rule"])),
                                          gbytes(bytes.fromhex(e["string"])))
@@ -761,13 +790,14 @@ class C18(Prop):
 
     def g_rres(self, r):
         return "{| rr_ns := %s; rr_name := %s; rr_matched := %s; rr_strings := %s |}" % (
-            gbytes(bytes.fromhex(r["ns"])), gbytes(bytes.fromhex(r["name"])), gbool(r["matched"]), g_strings(r["strings"]))
+            gbytes(bytes.fromhex(r["ns"])), gbytes(bytes.fromhex(r["name"])), gbool(r["matched"]),
+            g_strings(r["strings"], self._ms, self._keep))
 
     def term(self, ctx, case, out):
         p = self.parts(case, out)
         if p is None:
             return (False, False, 0)
-        return "C18_case (%s) (%s) (%s) (%s) %s (%s) (%s) %s %s %s %d" % (
+        return p["lets"] + "C18_case (%s) (%s) (%s) (%s) %s (%s) (%s) %s %s %s %d" % (
             p["s"], p["o"], p["i"], p["used"], p["decls"], p["target"], p["starget"], p["tbl"], p["out"], p["err"], p["rc"])
 
     def parts(self, case, out):
@@ -776,6 +806,8 @@ class C18(Prop):
             return None
         inv = case["inv"]
         f = inv["flags"]
+        self._ms = {}
+        self._keep = bool(f["s"] or f["L"] or f["X"])
         used = params_of_flags(f)
         mode_n = {"legacy": 0, "fast": 1, "single_pass": 2}
         s_opts = ("{| s_memory_chunk_size := %s; s_timeout := %s; s_max_fetched_region_size := %s; s_frag_mode := %s; "
@@ -839,7 +871,8 @@ class C18(Prop):
         err_lines = [l for l in stderr.split(b"\n") if l.startswith(self.STDERR_PREFIXES)]
         if t["kind"] != "file":
             out_lines = sorted(out_lines)
-        return {"s": s_opts, "o": o_opts, "i": i_opts, "used": g_used, "decls": decls, "target": target,
+        lets = "".join("let %s := %s in " % (name, txt) for txt, name in self._ms.items())
+        return {"lets": lets, "s": s_opts, "o": o_opts, "i": i_opts, "used": g_used, "decls": decls, "target": target,
                 "starget": starget, "tbl": glist(tbl), "out": glist([gbytes(l) for l in out_lines]),
                 "err": glist([gbytes(l) for l in sorted(err_lines)]), "rc": cli["rc"],
                 "out_lines": out_lines, "err_lines": sorted(err_lines)}
